@@ -232,6 +232,31 @@ let handle_parse id cps =
    | RfcIllTyped q -> Printf.printf "%s\tR\tILLTYPED\t%s\n" id (sx_query q)
    | RfcInvalid -> Printf.printf "%s\tR\tINVALID\n" id)
 
+let rec sx_doc = function
+  | JNull -> "null"
+  | JBool b -> "(b " ^ b01 b ^ ")"
+  | JNum (NInt z) -> "(i " ^ z_to_string z ^ ")"
+  | JNum (NFlt (m, e)) -> "(f " ^ z_to_string m ^ " " ^ z_to_string e ^ ")"
+  | JStr s -> sx_str s
+  | JArr l -> "(a" ^ String.concat "" (List.map (fun x -> " " ^ sx_doc x) l) ^ ")"
+  | JObj m -> "(o" ^ String.concat "" (List.map (fun (k, v) -> " (" ^ sx_str k ^ " " ^ sx_doc v ^ ")") m) ^ ")"
+
+(* reference / reference_mut: resolved location, and the document after writing [repl] through it *)
+let handle_ref id doc path repl =
+  let d = doc_of (parse_sexp doc) in
+  let p = str_of (parse_sexp path) in
+  let r = doc_of (parse_sexp repl) in
+  (match m_reference p d with
+   | Some (l, _) ->
+     let after = (match set_at d l r with Some d2 -> sx_doc d2 | None -> "SETFAIL") in
+     Printf.printf "%s\tM\tOK\t%s\t%s\n" id (loc_str l) after
+   | None -> Printf.printf "%s\tM\tNONE\t-\t%s\n" id (sx_doc d));
+  (match rfc_reference p d with
+   | Some (l, _) ->
+     let after = (match set_at d l r with Some d2 -> sx_doc d2 | None -> "SETFAIL") in
+     Printf.printf "%s\tR\tOK\t%s\t%s\n" id (loc_str l) after
+   | None -> Printf.printf "%s\tR\tNONE\t-\t%s\n" id (sx_doc d))
+
 let handle_eval id ast doc =
   let q = query_of (parse_sexp ast) in
   let d = doc_of (parse_sexp doc) in
@@ -259,6 +284,11 @@ let () =
           (try handle_eval id ast doc
            with Failure m -> Printf.printf "%s\tM\tBADCASE\t%s\n" id m
               | Stack_overflow -> Printf.printf "%s\tM\tSTACK\n" id)
+        | ["REF"; id; doc; path; repl] ->
+          (try handle_ref id doc path repl
+           with Failure m -> Printf.printf "%s\tM\tBADCASE\t%s\n" id m
+              | Stack_overflow -> Printf.printf "%s\tM\tSTACK\n" id)
+        | "HIST" :: id :: _ -> Printf.printf "%s\tM\tSKIP\n" id
         | ["PARSE"; id; cps] ->
           (try handle_parse id cps
            with Failure m -> Printf.printf "%s\tM\tBADCASE\t%s\n" id m
